@@ -865,6 +865,22 @@ def _a_dist(pm, v):
             "brg": _proj(math.floor(brg * 1000) if brg == brg and abs(brg) < 1e9 else brg, 1)}
 
 
+@reg("aero.distance_scale")
+def _a_dscale(pm, v):
+    """the radius argument: distance(p, q, H) is the great-circle distance on a sphere of radius r_earth + H, hence
+    distance(p, q, H) * r_earth = distance(p, q, 0) * (r_earth + H) for ANY pair of points - checked for legs from metres to
+    thousands of kilometres (coordinates are free reals here: no trigonometric oracle is needed for a ratio)"""
+    a = pm.aero
+    la1, lo1 = v["la1"] / 1e6, v["lo1"] / 1e6
+    la2, lo2 = v["la2"] / 1e6, v["lo2"] / 1e6
+    d0 = float(a.distance(la1, lo1, la2, lo2, 0))
+    dh = float(a.distance(la1, lo1, la2, lo2, v["H"]))
+    dd = float(a.distance(la1, lo1, la2, lo2))
+    # centimetres up to ~200 km, else metres (keeps every product of the verdict inside 32 bits)
+    unit = 100.0 if d0 < 200000.0 else 1.0
+    return {"t": "obs", "d0": _proj(d0, unit), "dh": _proj(dh, unit), "dd": _proj(dd, unit), "hk": v["H"] // 500}
+
+
 @reg("aero.same")
 def _a_same(pm, v):
     import numpy as np
